@@ -210,22 +210,24 @@ pub fn gate(defs: &str, out: &str) {
 /// spec -> impl: replay TLC-emitted (d, argv, obs) records; divergent ones go to `div` as trace lines
 pub fn parse_replay(defs: &str, input: &str, out: &str, div: &str, threads: usize) {
     let d = Arc::new(load_defs(defs));
-    let recs = Arc::new(read_ndjson(input));
+    // the input is streamed (the thorough tier replays tens of millions of lines): each worker pulls the next line
+    use std::io::BufRead as _;
+    let lines = Arc::new(Mutex::new(std::io::BufReader::new(std::fs::File::open(input).unwrap_or_else(|e| panic!("open {input}: {e}"))).lines()));
+    let done = Arc::new(std::sync::atomic::AtomicBool::new(false));
     let rep = Arc::new(Mutex::new(Report::new()));
     let dw = Arc::new(Mutex::new(NdWriter::create(div)));
-    let next = Arc::new(AtomicU64::new(0));
     let progress = Arc::new(AtomicU64::new(0));
     let current: Arc<Mutex<Vec<String>>> = Arc::new(Mutex::new(vec![String::new(); threads]));
     // watchdog: no progress for 30 s => report the cases in flight as hangs and give up
     {
-        let (progress, current, next, total) = (progress.clone(), current.clone(), next.clone(), recs.len() as u64);
+        let (progress, current, done) = (progress.clone(), current.clone(), done.clone());
         std::thread::spawn(move || {
             let mut last = 0;
             let mut idle = 0;
             loop {
                 std::thread::sleep(std::time::Duration::from_secs(1));
                 let p = progress.load(Ordering::Relaxed);
-                if next.load(Ordering::Relaxed) >= total + 64 { return; }
+                if done.load(Ordering::Relaxed) { return; }
                 if p == last { idle += 1 } else { idle = 0; last = p; }
                 if idle >= 30 {
                     println!("HANG {}", current.lock().unwrap().join(" | "));
@@ -236,15 +238,17 @@ pub fn parse_replay(defs: &str, input: &str, out: &str, div: &str, threads: usiz
     }
     let mut hs = vec![];
     for t in 0..threads {
-        let (d, recs, rep, dw, next, progress, current) = (d.clone(), recs.clone(), rep.clone(), dw.clone(), next.clone(), progress.clone(), current.clone());
+        let (d, lines, rep, dw, progress, current) = (d.clone(), lines.clone(), rep.clone(), dw.clone(), progress.clone(), current.clone());
         hs.push(std::thread::spawn(move || {
             quiet_panics();
             let mut local = Report::new();
             let mut divs = vec![];
             loop {
-                let i = next.fetch_add(1, Ordering::Relaxed) as usize;
-                if i >= recs.len() { break; }
-                let r = &recs[i];
+                let line = { lines.lock().unwrap().next() };
+                let Some(Ok(line)) = line else { break };
+                if line.trim().is_empty() { continue; }
+                let r: Value = serde_json::from_str(&line).unwrap_or_else(|e| panic!("replay line: {e}"));
+                let r = &r;
                 let di = r["d"].as_u64().unwrap() as usize - 1;
                 local.n += 1;
                 let cmd = match &d.cmds[di] {
@@ -287,7 +291,7 @@ pub fn parse_replay(defs: &str, input: &str, out: &str, div: &str, threads: usiz
         }));
     }
     for h in hs { h.join().unwrap(); }
-    next.store(recs.len() as u64 + 1000, Ordering::Relaxed);
+    done.store(true, Ordering::Relaxed);
     let rep = Arc::try_unwrap(rep).ok().unwrap().into_inner().unwrap();
     Arc::try_unwrap(dw).ok().unwrap().into_inner().unwrap().finish();
     rep.write(out);
